@@ -43,24 +43,40 @@ class NotInlinable(Exception):
     pass
 
 
-def fingerprint(fn: ast.FunctionDef) -> dict:
+def fingerprint(fn: ast.FunctionDef, prog: Optional[Program] = None, mi=None) -> dict:
     body = strip_doc(fn.body)
     callees, attrs, strs = set(), set(), set()
     n_nodes = 0
+    callfuncs = set()
     for st in body:
         for n in ast.walk(st):
             n_nodes += 1
             if isinstance(n, ast.Call):
-                if isinstance(n.func, ast.Name):
-                    callees.add(n.func.id)
-                elif isinstance(n.func, ast.Attribute):
-                    callees.add(n.func.attr)
-            elif isinstance(n, ast.Attribute):
+                callfuncs.add(id(n.func))
+                nm = n.func.id if isinstance(n.func, ast.Name) else n.func.attr if isinstance(n.func, ast.Attribute) else None
+                if nm:
+                    callees.add("<self>" if nm == fn.name else nm)
+    for st in body:
+        for n in ast.walk(st):
+            if isinstance(n, ast.Attribute) and id(n) not in callfuncs:
                 attrs.add(n.attr)
             elif isinstance(n, ast.Constant) and isinstance(n.value, str) and n.value.strip():
                 strs.add(n.value.strip()[:60])
+            elif isinstance(n, ast.Name) and prog is not None and mi is not None and n.id.isupper():
+                # a module constant standing for a string literal of the original
+                try:
+                    v = prog.const(mi, n)
+                except Exception:
+                    v = None
+                if isinstance(v, str) and v.strip():
+                    strs.add(v.strip()[:60])
     a = fn.args
-    return {"params": len(a.posonlyargs) + len(a.args) + len(a.kwonlyargs), "callees": sorted(callees), "attrs": sorted(attrs), "strs": sorted(strs), "size": n_nodes}
+    kind = "function"
+    for d in fn.decorator_list:
+        if isinstance(d, ast.Name) and d.id in ("staticmethod", "classmethod", "property"):
+            kind = {"staticmethod": "static", "classmethod": "class", "property": "property"}[d.id]
+    return {"params": len(a.posonlyargs) + len(a.args) + len(a.kwonlyargs), "callees": sorted(callees), "attrs": sorted(attrs), "strs": sorted(strs), "size": n_nodes,
+            "deco": kind}
 
 
 def load_baseline_funcs() -> dict:
@@ -78,6 +94,73 @@ def _jac(a, b):
     return len(a & b) / len(a | b)
 
 
+def recover_moves(prog: Program, taken: Set[str]) -> Dict[tuple, dict]:
+    """A baseline function that is gone while a new module-level function with (nearly) the same fingerprint sits in ANOTHER
+    module (private helpers moved to a new file, methods turned into plain functions there) was moved: the function keeps its
+    place, but the program model files it under its baseline qualified name / class / kind, so the rules find their anchor and
+    calls to the new location resolve to it.  Returns {(module, function name): {q, kind, cls}}."""
+    base = load_baseline_funcs()
+    names = load_baseline()
+    missing = [q for q in base if q not in prog.funcs and q not in taken and q.rsplit(".", 1)[0] in set(prog.modules) | set(prog.classes)]
+    new = [q for q, f in prog.funcs.items() if q not in names and not q.startswith("tests.") and f.cls is None and q not in taken]
+    if not missing or not new:
+        return {}
+    fps = {q: fingerprint(prog.funcs[q].node, prog, prog.funcs[q].module) for q in new}
+    moved, used_m, used_x = {}, set(), set()
+    ren_names: Dict[str, str] = {}
+    for _round in range(3):
+        scored = []
+        for m in missing:
+            if m in used_m:
+                continue
+            fm = base[m]
+            for x in new:
+                if x in used_x:
+                    continue
+                fx = fps[x]
+                cx = {ren_names.get(c, c) for c in fx["callees"]}
+                parts = [(_jac(fm["strs"], fx["strs"]), 0.45), (_jac(fm["callees"], cx), 0.25), (_jac(fm["attrs"], {ren_names.get(c, c) for c in fx["attrs"]}), 0.3)]
+                parts = [(v, w) for v, w in parts if v is not None]
+                if not parts:
+                    continue
+                sc = sum(v * w for v, w in parts) / sum(w for _, w in parts)
+                if abs(fm["params"] - fx["params"]) > 1:
+                    sc -= 0.15
+                ratio = min(fm["size"], fx["size"]) / max(fm["size"], fx["size"], 1)
+                if ratio < 0.4:
+                    sc -= 0.2
+                # the simple name usually survives a move (possibly without the leading underscore / with a new prefix)
+                a, b = m.rsplit(".", 1)[1].strip("_"), x.rsplit(".", 1)[1].strip("_")
+                a2, b2 = a.replace("get_", "").replace("validate_", ""), b.replace("get_", "").replace("check_", "").replace("validate_", "")
+                if a == b or a.endswith(b) or b.endswith(a) or (len(b2) > 3 and (a2 == b2 or a2.startswith(b2) or b2.startswith(a2))):
+                    sc += 0.2
+                scored.append((sc, m, x))
+        scored.sort(reverse=True)
+        progress = False
+        for sc, m, x in scored:
+            if sc < 0.55 or m in used_m or x in used_x:
+                continue
+            rivals = [s2 for s2, m2, x2 in scored if (m2 == m) != (x2 == x) and (m2 == m or x2 == x) and m2 not in used_m and x2 not in used_x]
+            if rivals and max(rivals) > sc - 0.1:
+                continue
+            fx = prog.funcs[x]
+            scope = m.rsplit(".", 1)[0]
+            kind = base[m].get("deco", "function")
+            if scope in prog.classes:
+                if kind == "function":
+                    kind = "method"
+                if kind == "method" and base[m]["params"] == fps[x]["params"] + 1:
+                    continue  # the receiver was dropped: not the same function any more
+            used_m.add(m)
+            used_x.add(x)
+            ren_names[x.rsplit(".", 1)[1]] = m.rsplit(".", 1)[1]
+            moved[(fx.module.name, fx.node.name)] = {"q": m, "kind": kind, "cls": scope if scope in prog.classes else None}
+            progress = True
+        if not progress:
+            break
+    return moved
+
+
 def recover_renames(prog: Program) -> Tuple[Optional[Dict[str, ast.Module]], Dict[str, str]]:
     """A baseline function that is gone while a new function with (nearly) the same body sits in the same class / module
     was renamed: give it its baseline name back (definition and every reference) so that the rules find their anchors.
@@ -88,7 +171,7 @@ def recover_renames(prog: Program) -> Tuple[Optional[Dict[str, ast.Module]], Dic
     new = [q for q in prog.funcs if q not in names and not q.startswith("tests.") and not q.endswith(".setter")]
     if not missing or not new:
         return None, {}
-    fps = {q: fingerprint(prog.funcs[q].node) for q in new}
+    fps = {q: fingerprint(prog.funcs[q].node, prog, prog.funcs[q].module) for q in new}
     ren_names: Dict[str, str] = {}   # simple new name -> simple old name (applied to callee sets of later rounds)
     mapping: Dict[str, str] = {}
     for _round in range(3):
@@ -500,12 +583,14 @@ class Normalizer:
             raise NotInlinable("recursive")
         self.in_progress.add(q)
         saved = (self.cur, self.used, self.try_depth, self.closures, getattr(self, "_local_touched", False))
+        saved_ul = getattr(self, "used_locals", set())
         try:
             self.cur = fi
             self._local_touched = False
             self.annotate(fi)
             node = copy.deepcopy(fi.node)
             self.used = all_names([node]) | set(fi.module.consts) | set(fi.module.functions) | set(fi.module.classes) | set(fi.module.imports)
+            self.used_locals = stored_names(node.body) | {a.arg for a in node.args.posonlyargs + node.args.args + node.args.kwonlyargs}
             self.try_depth = 0
             body = node.body
             for _ in range(MAX_ROUNDS):
@@ -519,6 +604,7 @@ class Normalizer:
             return body
         finally:
             self.cur, self.used, self.try_depth, self.closures, self._local_touched = saved
+            self.used_locals = saved_ul
             self.in_progress.discard(q)
 
     # ------------------------------------------------------------------ statement transformation
@@ -1243,7 +1329,7 @@ def main():
         with open(BASELINE_FILE, "w", encoding="utf-8") as f:
             json.dump({"comment": "qualified names of every function and class of the pinned tree (anything else is a helper and is dissolved into its callers, "
                                   "sa/normalize.py) and a fingerprint of every function, used only to recognise a baseline function that was renamed",
-                       "names": names, "funcs": {q: fingerprint(fi.node) for q, fi in sorted(prog.funcs.items()) if not q.startswith("tests.")}}, f, indent=0)
+                       "names": names, "funcs": {q: fingerprint(fi.node, prog, fi.module) for q, fi in sorted(prog.funcs.items()) if not q.startswith("tests.")}}, f, indent=0)
         print(len(names), "names written to", BASELINE_FILE)
         return 0
     prog = Program(root)
